@@ -62,6 +62,9 @@ func c06Scenarios() []*core.Scenario {
 			Setup: []core.Op{a(1, 0, 70000), a(2, 0, 66000), a(3, 0, 12)},
 			Threads: []core.ThreadSpec{{Name: "reader1", Ops: []core.Op{{K: "GL", Idx: 1}}}, {Name: "reader2", Ops: []core.Op{{K: "GL", Idx: 2}, {K: "GL", Idx: 3}}},
 				{Name: "writer", Ops: []core.Op{a(4, 0, 4)}}}},
+		{Name: "S11 after a reopen (sealed segment served by its on-disk index): GetLog(1) || GetLog(2), GetLog(3)", Cfg: seg,
+			Setup:   []core.Op{a(1, 0, 4), a(2, 0, 4), a(3, 0, 4), a(4, 0, 4), {K: "R"}},
+			Threads: []core.ThreadSpec{{Name: "reader1", Ops: []core.Op{{K: "GL", Idx: 1}}}, {Name: "reader2", Ops: []core.Op{{K: "GL", Idx: 2}, {K: "GL", Idx: 3}}}}},
 		{Name: "S6 head truncation inside the tail || GetLog(deleted), FirstIndex", Cfg: core.Config{SegSize: 4096},
 			Setup:   []core.Op{a(1, 0, 4), a(2, 0, 4), a(3, 0, 4)},
 			Threads: []core.ThreadSpec{{Name: "writer", Ops: []core.Op{{K: "D", Min: 1, Max: 2}, a(4, 0, 4)}}, {Name: "reader", Ops: []core.Op{{K: "GL", Idx: 1}, {K: "FI"}, {K: "GL", Idx: 4}}}}},
@@ -91,6 +94,9 @@ func c12Scenarios() []*core.Scenario {
 	return []*core.Scenario{
 		{Name: "GetLog(70000-byte entry) || GetLog(66000-byte entry)", Cfg: seg, Prop: "C12", Setup: setup,
 			Threads: []core.ThreadSpec{{Name: "reader1", Ops: []core.Op{{K: "GL", Idx: 1}}}, {Name: "reader2", Ops: []core.Op{{K: "GL", Idx: 2}}}}},
+		{Name: "after one GetLog whose Decode failed: GetLog(1) || GetLog(2), GetLog(3) (entries of 100, 120, 140 bytes)", Cfg: seg, Prop: "C12", FailDecodeOnce: 2,
+			Setup:   []core.Op{a(1, 0, 100), a(2, 0, 120), a(3, 0, 140)},
+			Threads: []core.ThreadSpec{{Name: "reader1", Ops: []core.Op{{K: "GL", Idx: 1}}}, {Name: "reader2", Ops: []core.Op{{K: "GL", Idx: 2}, {K: "GL", Idx: 3}}}}},
 		{Name: "GetLog(70000-byte entry) || GetLog(small), GetLog(small)", Cfg: seg, Prop: "C12", Setup: setup,
 			Threads: []core.ThreadSpec{{Name: "reader1", Ops: []core.Op{{K: "GL", Idx: 1}}}, {Name: "reader2", Ops: []core.Op{{K: "GL", Idx: 3}, {K: "GL", Idx: 3}}}}},
 	}
@@ -138,6 +144,7 @@ func c14Scenarios() []*core.Scenario {
 		mk("Close || GetLog, FirstIndex, LastIndex", core.ThreadSpec{Name: "reader", Ops: []core.Op{{K: "GL", Idx: 1}, {K: "FI"}, {K: "LI"}}}),
 		mk("Close || Set, Get, GetUint64", core.ThreadSpec{Name: "stable", Ops: []core.Op{{K: "S", Key: "k1", Val: []byte("v")}, {K: "G", Key: "k1"}, {K: "GU", Key: "k2"}}}),
 		mk("Close || Close", core.ThreadSpec{Name: "closer2", Ops: []core.Op{{K: "C"}}}),
+		mk("Close || Close || StoreLogs (both Close calls while a write is in flight)", core.ThreadSpec{Name: "closer2", Ops: []core.Op{{K: "C"}}}, core.ThreadSpec{Name: "writer", Ops: []core.Op{a(3, 0, 4)}}),
 		func() *core.Scenario {
 			s := mk("Close (metadata store's Close fails) || StoreLogs", core.ThreadSpec{Name: "writer", Ops: []core.Op{a(3, 0, 4)}})
 			s.MetaCloseFails = true
